@@ -884,6 +884,37 @@ func deployUpdateEveryPassRule(c *Ctx) {
 					}
 				}
 			}
+			// the write sits in a closure (retry.RetryOnConflict): an early success return of the enclosing
+			// function in front of the retry call skips it just the same
+			if par := fn.Parent(); par != nil {
+				var user ssa.Instruction
+				for _, b := range par.Blocks {
+					for _, in := range b.Instrs {
+						if mc, ok := in.(*ssa.MakeClosure); ok && mc.Fn == ssa.Value(fn) {
+							for _, r := range referrersOf(mc) {
+								if ci, isCall := r.(ssa.CallInstruction); isCall {
+									user = ci
+								}
+							}
+						}
+					}
+				}
+				if user != nil {
+					for _, rc := range p.returnCases(par) {
+						if len(rc.Results) == 0 || !isNilConst(stripConv(rc.Results[len(rc.Results)-1])) {
+							continue
+						}
+						if canPrecede(user, rc.Ret) {
+							continue
+						}
+						for _, f := range rc.Facts {
+							if !allowedWriteGuard(p, f) {
+								bad = append(bad, "success return at "+p.IPos(rc.Ret)+" under "+p.describeFact(f))
+							}
+						}
+					}
+				}
+			}
 			if len(bad) == 0 {
 				o.OK()
 			} else {
